@@ -7,12 +7,14 @@ complements, hafnian-based quantities) — monitored on the real simulators.
 tie/search: a per-instruction monitor: every prefix of random valid programs (gates, channels, mid-circuit
 measurements, post-selection; all hbar, cutoffs 1..6) is executed on the real simulators and the invariants
 of the statement are evaluated on every branch state."""
+import math
 import numpy as np
 from pqv.props.c07 import haar
 
 THEOREMS = ["Pq.C08.congruence_psd", "Pq.C08.gaussian_gate_keeps_physical", "Pq.C08.kraus_psd", "Pq.C08.unitary_preserves_norm",
-            "Pq.C08.contraction_norm_le"]
-FILES = ["PqVerif/Props/C08.lean", "PqVerif/Lemmas/GaussCongr.lean", "PqVerif/Model/Gauss.lean"]
+            "Pq.C08.contraction_norm_le", "Pq.C08.attenuator_kraus_form", "Pq.C08.attenuator_kraus_complete",
+            "Pq.C08.attenuator_keeps_physical", "Pq.C08.gaussian_channel_keeps_uncertainty", "Pq.C08.gaussian_channel_code_condition_wrong"]
+FILES = ["PqVerif/Props/C08.lean", "PqVerif/Lemmas/GaussCongr.lean", "PqVerif/Lemmas/Attenuator.lean", "PqVerif/Lemmas/GaussChannel.lean", "PqVerif/Model/Gauss.lean"]
 HBARS = [0.5, 1.0, 2.0, 3.7]
 TOL = 1e-8
 
@@ -270,6 +272,69 @@ def dyne_physicality(ctx, n):
     return fails
 
 
+def attenuator_model(ctx, n):
+    """tie of Lemmas/Attenuator.lean to the real code: the density matrix returned by the Fock `attenuator` step equals
+    `Pq.Attenuator.attenuate` (the update per target entry; spectator label = occupation of the other modes, the density
+    matrix zero-padded outside the truncated basis) on random mixed states, any mode, d <= 3"""
+    import piquasso as pq
+    from piquasso._math.fock import get_fock_space_basis
+    rng = np.random.default_rng(ctx.seed + 808)
+    mism = []
+    for it in range(n):
+        d = int(rng.integers(1, 4)); cutoff = int(rng.integers(2, 6 if d < 3 else 5)); mode = int(rng.integers(0, d))
+        th = float(rng.uniform(0.05, 1.5))
+        basis = [tuple(int(x) for x in b) for b in get_fock_space_basis(d=d, cutoff=cutoff)]
+        pos = {b: i for i, b in enumerate(basis)}
+        N = len(basis)
+        B = rng.normal(size=(N, N)) + 1j * rng.normal(size=(N, N))
+        rho = B @ B.conj().T
+        rho /= np.trace(rho).real
+        sim = pq.FockSimulator(d=d, config=pq.Config(cutoff=cutoff))
+        st = sim.create_initial_state(d)
+        st._density_matrix = rho.copy()
+        out = np.asarray(sim.execute(pq.Program(instructions=[pq.Attenuator(theta=th).on_modes(mode)]), initial_state=st).state._density_matrix)
+        exp = np.zeros((N, N), dtype=complex)
+        up = lambda b, k: tuple(x + (k if i == mode else 0) for i, x in enumerate(b))
+        for p, bi in enumerate(basis):
+            for q, bj in enumerate(basis):
+                i, j = bi[mode], bj[mode]
+                for k in range(cutoff):
+                    if up(bi, k) in pos and up(bj, k) in pos:
+                        exp[p, q] += rho[pos[up(bi, k)], pos[up(bj, k)]] * math.cos(th) ** (i + k + j + k) * math.tan(th) ** (2 * k) * math.sqrt(math.comb(i + k, k) * math.comb(j + k, k))
+        ctx.count(("attenuator-model", it), nontrivial=d >= 2 and cutoff >= 3)
+        e = float(np.abs(out - exp).max())
+        if e > 1e-10:
+            mism.append((f"attenuator d={d} cutoff={cutoff} mode={mode} theta={th}", f"the real attenuator differs from the model `attenuate` by {e:.2e}"))
+    return mism
+
+
+KNOWN_CHANNEL = "gaussian-channel:validation-sign"
+
+
+def pinned_channel_finding(ctx):
+    """DeterministicGaussianChannel: a channel must either be rejected up front or keep the state physical.  The unchanged code
+    evaluates `Y - iΩ - iXΩXᵀ` instead of the documented `Y + iΩ - iXΩXᵀ` (theorems channel_keeps_uncertainty /
+    code_condition_insufficient): time reversal of one mode of a two-mode squeezed vacuum is accepted and the simulator ends
+    in an unphysical state (InvalidState)."""
+    import piquasso as pq
+    ctx.count("pinned:gaussian-channel", True)
+    prog = pq.Program(instructions=[pq.Vacuum(), pq.Squeezing2(r=0.8, phi=0.0).on_modes(0, 1),
+                                    pq.DeterministicGaussianChannel(X=np.diag([1.0, -1.0]), Y=np.zeros((2, 2))).on_modes(1)])
+    desc = {"program": "Vacuum; Squeezing2(r=0.8) on (0,1); DeterministicGaussianChannel(X=diag(1,-1), Y=0) on 1"}
+    try:
+        st = pq.GaussianSimulator(d=2).execute(prog).state
+        cov = np.asarray(st.xpxp_covariance_matrix)
+    except pq.api.exceptions.InvalidParameter:
+        return                      # rejected up front: what the documentation promises
+    except pq.api.exceptions.InvalidState as e:
+        ctx.fail(KNOWN_CHANNEL, f"the channel passed validation and the execution ended with InvalidState: {str(e)[:100]}", desc); return
+    except Exception as e:
+        ctx.fail("gaussian-channel:raise:" + type(e).__name__, f"{type(e).__name__}: {str(e)[:120]}", desc); return
+    m = float(np.linalg.eigvalsh(cov + 1j * st._config.hbar * omega(2)).min())
+    if m < -1e-9:
+        ctx.fail(KNOWN_CHANNEL, f"the channel passed validation and the state violates the uncertainty relation (min eigenvalue {m:.3g})", desc)
+
+
 def run(ctx):
     quick = ctx.tier == "quick"
     n = 90 if quick else 3000
@@ -277,6 +342,8 @@ def run(ctx):
                 "the six simulators, d<=3 (fermionic d<=4), cutoff 1..6, hbar in {0.5,1,2,3.7}; EVERY prefix is executed and every branch state is "
                 "checked (symmetry, uncertainty relation, PSD, trace/norm <= 1, probabilities in [0,1], purity, spectrum); non-trivial = prefix of length >= 2")
     ctx.assumptions = ["eigenvalue tolerances 1e-8 relative", "programs the simulator refuses with a Piquasso exception are skipped (C13 covers them)"]
+    from pqv import gengates
+    gengates.regenerate(ctx)      # Props/C08 mentions the blocks of Gen/Gates.lean
     ctx.prove("PqVerif.Props.C08", THEOREMS, FILES)
     import glob, os, subprocess, sys
     for f in sorted(glob.glob(os.path.join(os.path.dirname(__file__), "..", "..", "..", "corpus", "repro", "c14_purity*.py"))):
@@ -291,6 +358,12 @@ def run(ctx):
     if mism:
         ctx.broken.append("correspondence:Model/Gauss vs GaussianSimulator")
         ctx.notes["first_mismatches"] = [dict(sequence=repr(m[0])[:300], what=m[1]) for m in mism[:3]]
+    pinned_channel_finding(ctx)
+    m_att = attenuator_model(ctx, 12 if quick else 200)
+    if m_att:
+        ctx.broken.append("correspondence:Lemmas/Attenuator.attenuate vs fock/simulation_steps.attenuator")
+        ctx.notes.setdefault("first_mismatches", []).extend(dict(op=m[0][:200], what=m[1][:200]) for m in m_att[:3])
+        ctx.notes["correspondence_mismatches"] = ctx.notes.get("correspondence_mismatches", 0) + len(m_att)
     fails = monitor(ctx, n) + dyne_physicality(ctx, 15 if quick else 300) + f07
     seen = set()
     for key, msg, inp in fails:
